@@ -128,7 +128,10 @@ def schema(c):
         if kind == "feature":
             k += 1
             names.append(FEAT_NAMES[k % 3] % k)
-            cols.append([k + ((r * 3 + k) % 41) * 0.125 for r in R])
+            vals = [k + ((r * 3 + k) % 41) * 0.125 for r in R]
+            if k == 1 and n >= 2 and c.get("idx", 0) % 6 == 4:
+                vals[0], vals[1] = float("inf"), float("-inf")      # infinite values are values, not missing ones
+            cols.append(vals)
             continue
         names.append(NAMES[kind][ci])
         if kind == "specid":
@@ -142,7 +145,10 @@ def schema(c):
         elif kind == "ret_time":
             cols.append([10 + ((r * 5) % 41) * 0.25 for r in R])
         elif kind == "expmass":
-            cols.append([500 + ((r * 11) % 41) * 0.5 for r in R])
+            # Parquet holds doubles as they are: masses that single precision cannot represent (2^-20 steps); text formats
+            # keep halves (the decimal cells must parse exactly)
+            fine = 2.0 ** -20 if c.get("fmt") == "parquet" else 0.0
+            cols.append([500 + ((r * 11) % 41) * 0.5 + r * fine for r in R])
         elif kind == "calcmass":
             cols.append([400 + ((r * 3) % 41) * 0.5 for r in R])
         elif kind == "charge":
